@@ -240,4 +240,7 @@ silent("C06", "skipgram-decode-freq-len", E(SG, "SkipgramVectorizer.fit", "n_enc
 
 fire("C01", "tree-blocks-swapped", "R1.7", E(TREE, "sequence_tree_skip_grams", "scipy.sparse.hstack([global_counts.T, global_counts])", "scipy.sparse.hstack([global_counts, global_counts.T])"), "directional blocks stacked in the other order than they are labelled")
 
+silent("C04", "rename-key-locals", [E(TOK, "numba_build_skip_grams", "array_mul", "stride_of_rows", count=2), E(TOK, "numba_build_skip_grams", "key = col + stride_of_rows * row", "cell_key = col + stride_of_rows * row"),
+                                     E(TOK, "numba_build_skip_grams", "(row, col, val, key)", "(row, col, val, cell_key)")], "locals of the key computation renamed")
+
 VARIANTS = V
